@@ -582,4 +582,31 @@ def registerAuthCheck (i : RAIn) : RAOut :=
   -- persisted, tracked; a service token id also gets its external (SSC) id
   else .ok true true (i.token == .hvs)
 
+/-! ### the token index across namespaces (`createIndexByToken` / `lookupLeasesByToken` / `removeIndexByToken`)
+
+One index view per namespace (`tokenIndexView(ns)`); an entry is keyed by (salted token id, salted lease id). The
+lease lives in the namespace of the MOUNT that issued it, the index entry in the namespace of the TOKEN that owns it
+(the two differ when a parent-namespace token acts in a child namespace): revocation of the token walks
+`tokenIndexView(token namespace)`. -/
+
+structure TokIdx where
+  entries : List (Nat × Nat × Nat) := []    -- (namespace of the view, token, lease)
+  deriving DecidableEq, Repr
+
+/-- `createIndexByToken`: written into the view of the TOKEN's namespace -/
+def TokIdx.create (ix : TokIdx) (tokenNs _leaseNs tok lease : Nat) : TokIdx :=
+  { entries := (tokenNs, tok, lease) :: ix.entries }
+
+/-- seeded change C06-4: written into the view of the LEASE's namespace -/
+def TokIdx.createInLeaseNs (ix : TokIdx) (_tokenNs leaseNs tok lease : Nat) : TokIdx :=
+  { entries := (leaseNs, tok, lease) :: ix.entries }
+
+/-- `lookupLeasesByToken`: lists the view of the token's namespace under the token -/
+def TokIdx.lookup (ix : TokIdx) (tokenNs tok : Nat) : List Nat :=
+  (ix.entries.filter fun e => e.1 == tokenNs && e.2.1 == tok).map (·.2.2)
+
+/-- `removeIndexByToken` -/
+def TokIdx.remove (ix : TokIdx) (tokenNs tok lease : Nat) : TokIdx :=
+  { entries := ix.entries.filter fun e => !(e.1 == tokenNs && e.2.1 == tok && e.2.2 == lease) }
+
 end Obao.Register
